@@ -138,6 +138,9 @@ pub struct Session {
     pub profile: String,
     pub cases: Vec<Case>,
     pub notes: BTreeMap<String, serde_json::Value>,
+    /// Optional canonicaliser applied when the two answer lines differ textually: returns true
+    /// when they agree up to the tolerance the property states (never used for exact data).
+    pub agree: Option<fn(&str, &str) -> bool>,
 }
 
 pub struct Disagreement {
@@ -223,7 +226,7 @@ impl Session {
                 oracle_fails.push(c);
             }
             let Some(m) = answers.get(i) else { continue };
-            if m == &c.imp {
+            if m == &c.imp || self.agree.map(|f| f(&c.imp, m)).unwrap_or(false) {
                 if class(m) == "err" {
                     err_kind_same += 1;
                 }
